@@ -62,6 +62,7 @@ def header(keys, vals):
         lines.append("kmap %d %x" % (i + 1, p))
     for i, p in enumerate(vals):
         lines.append("vmap %d %x" % (i + 1, p))
+    lines.append("vmap 9 %x" % M64)       # value id 9 = the all-ones pointer (equal to the not-found marker)
     return lines
 
 
@@ -105,7 +106,7 @@ def run(ctx):
         lines = header(keys, val_patterns(rng, 3)) + ["hnew"]
         for _ in range(150 if ctx.quick else 1500):
             if rng.random() < 0.6:
-                lines.append("hins %d %d" % (rng.randint(1, nk), rng.randint(1, 3)))
+                lines.append("hins %d %d" % (rng.randint(1, nk), rng.choice([1, 2, 3, 9])))
             else:
                 lines.append("hrem %d" % rng.randint(1, nk))
             lines.append("hobs")
